@@ -660,6 +660,33 @@ def annotate(text, annots):
                         break
                 ins.append((ts[pos + 1].start, a["iter"] + ": ", "itername", order))
             ins.append((ts[lb].start, "\n" + a["text"].rstrip() + "\n", "loop", order))
+        elif kind == "ghost" and a.get("at"):
+            # structural anchors: survive renames and statement reordering inside the function
+            _check_ghost("ghost", a["text"])
+            fn_i, b = _fn_sig(ts)
+            e = match_close(ts, b)
+            at = a["at"]
+            if at == "body_start":
+                ins.append((ts[b].end, "\n" + a["text"].rstrip() + "\n", "ghost", order))
+            else:
+                loops = _loops(ts, b + 1, e)
+                k = a.get("ordinal", 0)
+                if k >= len(loops):
+                    raise VxError("lost anchor: loop ordinal %d, function has %d loops" % (k, len(loops)))
+                lb = next_body_brace(ts, loops[k] + 1, e)
+                le = match_close(ts, lb)
+                if at == "loop_start":
+                    ins.append((ts[lb].end, "\n" + a["text"].rstrip() + "\n", "ghost", order))
+                elif at == "loop_end":
+                    ins.append((ts[le].start, "\n" + a["text"].rstrip() + "\n", "ghost", order))
+                elif at == "before_loop":
+                    # before the statement that contains the loop keyword (labels / `let x =` excluded: the
+                    # loops handled here are statements of their own)
+                    ins.append((ts[loops[k]].start, a["text"].rstrip() + "\n", "ghost", order))
+                elif at == "after_loop":
+                    ins.append((ts[le].end, "\n" + a["text"].rstrip() + "\n", "ghost", order))
+                else:
+                    raise VxError("unknown structural anchor %r" % at)
         elif kind == "ghost":
             _check_ghost("ghost", a["text"])
             anchor = tok_texts(a["anchor"])
